@@ -553,3 +553,60 @@ pub fn c11_validate() -> i32 {
     }
     report(found, tried)
 }
+
+// ---------------------------------------------------------------------------------------------
+// C08 / U-FLATTEN: several recursive roots with different reachable sets, in both registry orders, together with specific
+// registrations; through DerivesRegistry::flatten_recursive_derives + FlatDerivesRegistry::resolve (public API)
+pub fn c08_flatten() -> i32 {
+    use std::collections::{BTreeMap, BTreeSet};
+    let leaf = |p: &str| ty(p, vec![], composite(vec![field(Some("x"), 0, Some("u8"))]));
+    let two = |p: &str, a: u32, an: &str, b: u32, bn: &str| ty(p, vec![], composite(vec![field(Some("a"), a, Some(an)), field(Some("b"), b, Some(bn))]));
+    // order 0: ids 0 u8, 1 LeafA, 2 LeafB, 3 Shared, 4 A{LeafA, Shared}, 5 B{LeafB, Shared}, 6 Other
+    // order 1: ids 0 u8, 1 LeafA, 2 LeafB, 3 Shared, 4 B{LeafB, Shared}, 5 A{LeafA, Shared}, 6 Other
+    let regs = [
+        registry(vec![ty("", vec![], prim(TypeDefPrimitive::U8)), leaf("m::LeafA"), leaf("m::LeafB"), leaf("m::Shared"), two("m::A", 1, "LeafA", 3, "Shared"), two("m::B", 2, "LeafB", 3, "Shared"), leaf("m::Other")]),
+        registry(vec![ty("", vec![], prim(TypeDefPrimitive::U8)), leaf("m::LeafA"), leaf("m::LeafB"), leaf("m::Shared"), two("m::B", 2, "LeafB", 3, "Shared"), two("m::A", 1, "LeafA", 3, "Shared"), leaf("m::Other")]),
+    ];
+    let names = ["m::LeafA", "m::LeafB", "m::Shared", "m::A", "m::B", "m::Other"];
+    let reach: BTreeMap<&str, Vec<&str>> = [("m::A", vec!["m::A", "m::LeafA", "m::Shared"]), ("m::B", vec!["m::B", "m::LeafB", "m::Shared"]), ("m::Shared", vec!["m::Shared"])].into_iter().collect();
+    let tp = |s: &str| -> syn::TypePath { syn::parse_str(s).unwrap() };
+    let p = |s: &str| -> syn::Path { syn::parse_str(s).unwrap() };
+    let at = |s: &str| -> syn::Attribute { let id: syn::Ident = syn::parse_str(s).unwrap(); syn::parse_quote!(#[#id]) };
+    let show = |t: &dyn quote::ToTokens| t.to_token_stream().to_string().replace(' ', "");
+    // registrations: (kind, path, name, recursive)   kind 0 derive, 1 attribute
+    let regsn: [(u8, &str, &str, bool); 7] = [(0, "m::A", "DA", true), (0, "m::B", "DB", true), (1, "m::A", "ra", true), (0, "m::LeafB", "S", false),
+        (0, "m::A", "S2", false), (0, "m::Shared", "DS", true), (1, "m::B", "sb", false)];
+    let mut tried = 0;
+    let mut found = None;
+    'o: for (oi, reg) in regs.iter().enumerate() {
+        for mask in 0u32..(1 << regsn.len()) {
+            tried += 1;
+            let mut d = DerivesRegistry::new();
+            d.add_derives_for_all([p("G")]);
+            let mut want_d: BTreeMap<&str, BTreeSet<String>> = names.iter().map(|n| (*n, ["G".to_string()].into_iter().collect())).collect();
+            let mut want_a: BTreeMap<&str, BTreeSet<String>> = names.iter().map(|n| (*n, BTreeSet::new())).collect();
+            for (i, (kind, path, name, rec)) in regsn.iter().enumerate() {
+                if mask & (1 << i) == 0 { continue; }
+                if *kind == 0 { d.add_derives_for(tp(path), [p(name)], *rec); } else { d.add_attributes_for(tp(path), [at(name)], *rec); }
+                let targets: Vec<&str> = if *rec { reach[path].clone() } else { vec![*path] };
+                for t in targets { if *kind == 0 { want_d.get_mut(t).unwrap().insert(name.to_string()); } else { want_a.get_mut(t).unwrap().insert(format!("#[{name}]")); } }
+            }
+            let describe = || format!("registry order {oi} (0: A before B, 1: B before A; A = {{LeafA, Shared}}, B = {{LeafB, Shared}}), registrations {:?}",
+                regsn.iter().enumerate().filter(|(i, _)| mask & (1 << i) != 0).map(|(_, r)| *r).collect::<Vec<_>>());
+            let flat = match panic::catch_unwind(panic::AssertUnwindSafe(|| d.flatten_recursive_derives(reg))) {
+                Ok(Ok(f)) => f,
+                Ok(Err(e)) => { found = Some((describe(), format!("flatten failed: {e}"))); break 'o; }
+                Err(_) => { found = Some((describe(), "flatten panicked".into())); break 'o; }
+            };
+            for n in names {
+                let r = flat.resolve(&tp(n));
+                let gd: BTreeSet<String> = r.derives().iter().map(|x| show(x)).collect();
+                let ga: BTreeSet<String> = r.attributes().iter().map(|x| show(x)).collect();
+                if gd != want_d[n] || ga != want_a[n] {
+                    found = Some((describe(), format!("{n} resolves to derives {gd:?} attributes {ga:?}; expected {:?} {:?}", want_d[n], want_a[n]))); break 'o;
+                }
+            }
+        }
+    }
+    report(found, tried)
+}
